@@ -119,6 +119,16 @@ func cmdParse(path string) int {
 			}
 		}
 	}
+	// the same files once more, in the same process (a second file cache, the same engine): the verdict is a function of
+	// the files, not of what this process parsed before
+	book.phase.Store("probe")
+	if fc2, err2 := loadfile.NewFileCacheUsingContext(sc.Dir, map[string]string{"workflow": sc.Main}); err2 == nil && fc2.LoadContext() == nil {
+		if _, err2 = eng.Parse(fc2, "workflow"); err2 != nil {
+			res["parse2_err"] = trunc(err2.Error())
+		} else {
+			res["parsed2"] = true
+		}
+	}
 	close(done)
 	_, leaked := settle(1000)
 	res["leaks"] = leaked
